@@ -124,13 +124,19 @@ def check(ctx):
 def oracle(ctx):
     from xitorch.interpolate import Interp1D
     rng = ctx.rng
-    for _ in range(ctx.n(25, 200)):
+    for rep_ in range(ctx.n(25, 200)):
         xs = gen_grid(rng, 5)
+        if rep_ % 8 == 3:
+            xs = xs[:3]            # the smallest grids (for periodic splines the wrap-around rows touch every column)
+        elif rep_ % 8 == 5:
+            xs = xs[:4]
         n = len(xs)
         x = torch.tensor(xs, dtype=DT)
         y = torch.tensor([rng.randrange(-32, 33) / 8 for _ in xs], dtype=DT)
         span = xs[-1] - xs[0]
         for method, bc in [("linear", None)] + [("cspline", b) for b in BCS]:
+            if bc == "not-a-knot" and n == 3:
+                continue     # ill-posed: with one interior knot every cubic through the three samples is a not-a-knot spline
             kw = {} if bc is None else {"bc_type": bc}
             yy = y.clone()
             if bc == "periodic":
@@ -148,6 +154,16 @@ def oracle(ctx):
                         ctx.fail("oracle", "interp:knots:%s:%s" % (method, bc), info, got, want)
                 # formula agreement: the same queries evaluated with few / many companions
                 qin = torch.tensor([xs[0] + span * k / 7.3 for k in range(1, 7)], dtype=DT)
+                # an independent implementation of the declared spline (scipy's CubicSpline with the same boundary condition):
+                # values between the knots (round-3 seeds C14/7, C15/9: entries of the periodic slope system)
+                if method == "cspline":
+                    from scipy.interpolate import CubicSpline
+                    import numpy as _np
+                    ref_sp = CubicSpline(_np.array(xs), yy.numpy(), bc_type=bc)
+                    want_sp = torch.tensor(ref_sp(qin.numpy()), dtype=DT)
+                    got_sp = f(qin)
+                    if not torch.allclose(got_sp, want_sp, rtol=1e-8, atol=1e-9 * (float(yy.abs().max()) + 1)):
+                        ctx.fail("oracle", "interp:cspline-vs-independent-spline:%s" % bc, info, got_sp, want_sp)
                 few = f(qin[:2])
                 manyq = torch.cat([qin[:2], torch.linspace(xs[0], xs[-1], 2 * n + 3, dtype=DT)])
                 many = f(manyq)[:2]
@@ -206,6 +222,10 @@ def oracle(ctx):
                 vals = {
                     "nan": lambda r: bool(torch.isnan(r[:2]).all()),
                     2.5: lambda r: bool(torch.allclose(r[:2], torch.full((2,), 2.5, dtype=DT))),
+                    # zero is a constant like any other (round-3 seed C14/8: `not extrap` took 0 for "no extrapolation")
+                    0.0: lambda r: bool(torch.equal(r[:2], torch.zeros(2, dtype=DT))),
+                    0: lambda r: bool(torch.equal(r[:2], torch.zeros(2, dtype=DT))),
+                    -1: lambda r: bool(torch.equal(r[:2], torch.full((2,), -1.0, dtype=DT))),
                     "bound": lambda r: bool(torch.allclose(r[:2], torch.stack([yy[0], yy[-1]]), rtol=1e-9, atol=1e-9)),
                     "mirror": lambda r: bool(torch.allclose(r[:2], f(torch.tensor([xs[0] + 0.3 * span, xs[-1] - 0.4 * span], dtype=DT)), rtol=1e-8, atol=1e-9)),
                     "periodic": lambda r: bool(torch.allclose(r[:2], f(torch.tensor([xs[0] + 0.7 * span, xs[0] + 0.4 * span], dtype=DT)), rtol=1e-8, atol=1e-9)),
@@ -220,6 +240,20 @@ def oracle(ctx):
                         continue
                     if not pred(r) or not torch.allclose(r[2:], inside, rtol=1e-10, atol=1e-12):
                         ctx.fail("oracle", "interp:extrap:%s:%s:%s" % (ex, method, bc), info, r, "documented extrapolation value; inside untouched")
+                # one interpolator object called repeatedly with y given at call time: each call interpolates the y it is given,
+                # also when the same tensor object was updated in place in between (round-3 seed C14/9: slopes cached by identity)
+                itp = Interp1D(x, method=method, assume_sorted=bool((x[1:] > x[:-1]).all()), **kw)
+                ycall = yy.clone()
+                first_call = itp(qin, ycall)
+                with torch.no_grad():
+                    ycall.mul_(-0.5).add_(torch.sin(3.0 * x))
+                    if bc == "periodic":
+                        ycall[-1] = ycall[0]
+                second_call = itp(qin, ycall)
+                fresh = Interp1D(x, ycall.clone(), method=method, **kw)(qin)
+                if not torch.allclose(first_call, r0, rtol=1e-9, atol=1e-10) or not torch.allclose(second_call, fresh, rtol=1e-9, atol=1e-10):
+                    ctx.fail("oracle", "interp:y-at-call:reused-object-after-in-place-update:%s:%s" % (method, bc), info,
+                             {"second_call": second_call.tolist(), "fresh_interpolator": fresh.tolist()}, "the interpolant of the y given at the call")
                 cb = Interp1D(x, yy, method=method, extrap=lambda q: q * 2, **kw)(out_q)
                 if not torch.allclose(cb[:2], out_q[:2] * 2):
                     ctx.fail("oracle", "interp:extrap:callable:%s" % method, info, cb, out_q[:2] * 2)
